@@ -51,6 +51,15 @@ def gen_cases(chk):
         for ty in (0, 1):
             for sched in ("STTT", "PPPPPP"):
                 cases.append("ts %s %x %s 0 %s %s %s 0 0 %x %s 1" % (rng.choice(("-", "szMode=SZ_BEST_SPEED")), ty, dims, dbits(0.01), dbits(1e-3), sched, rng.getrandbits(16), one))
+    # point-wise relative variables (always compressed as snapshots by the point-wise relative kernels, accelerated or log path), alone and next to
+    # ABS variables of the same set, decoded by the reader process: each step within r|x|, the other variables' histories untouched
+    for cfgp in ("-", "accelerate_pw_rel_compression=0", "szMode=SZ_BEST_SPEED"):
+        for ty in (0, 1):
+            for t in ((1000,), (30, 40), (8, 9, 10)):
+                dims = ",".join("%x" % v for v in [0] * (5 - len(t)) + list(t))
+                for sched, nv, mask in (("SPPTP", 1, 1), ("STTPT", 2, 2), ("TTTSP", 3, 5)):
+                    cases.append("ts %s %x %s 0 %s %s %s %d 0 %x %s %d %s %x" % (cfgp, ty, dims, dbits(0.01), dbits(1e-3), sched, rng.choice((0, 1, 3)), rng.getrandbits(16), one, nv,
+                                                                               dbits(rng.choice((1e-2, 1e-4))), mask))
     n = 260 if thorough else 70
     for i in range(n):
         small = i % 2 == 0
@@ -134,6 +143,7 @@ def run(chk):
             if v:
                 n *= v
         nvars = int(a[12])
+        pwmask = int(a[14], 16) if len(a) > 14 else 0
         period = 5
         for kvp in a[1].split(";"):
             if kvp.startswith("snapshotCmprStep="):
@@ -147,12 +157,12 @@ def run(chk):
             continue
         for r in recs:
             why = None
-            if r["eh"] != r["dh"]:
+            if r["eh"] != r["dh"] and not (pwmask >> r["var"]) & 1:      # a point-wise relative variable's history is never read (no temporal prediction for it)
                 why = "decoder history differs from encoder history after step %s (variable %d)" % (r["tag"], r["var"])
             elif r["viol"]:
                 why = "step %s variable %d: %d elements outside the step's bound (max error %g, bound %g)" % (r["tag"], r["var"], r["viol"], r["maxerr"], r["e"])
             if why:
-                cls = classify(c, r) if r["eh"] == r["dh"] else None
+                cls = classify(c, r) if (r["eh"] == r["dh"] and not (pwmask >> r["var"]) & 1) else None
                 if cls and cls in chk.known_classes:
                     chk.known(cls, chk.known_classes[cls]["text"])
                     continue
@@ -164,6 +174,8 @@ def run(chk):
         if detail and detail != "_" and sum(1 for v in dims if v > 1) <= 1:
             dsteps = [d.split(";") for d in detail.split("/") if d]
             for v in range(nvars):
+                if (pwmask >> v) & 1:
+                    continue            # the model has the ABS-family kernels only
                 mine = [dsteps[k * nvars + v] for k in range(len(a[7]))]
                 toks, impl_rec, ok = [], [], True
                 for k, (ct, hdr, data, rec, eh) in enumerate(mine):
@@ -210,7 +222,7 @@ def run(chk):
         chk.sample(c[:170])
     chk.assumptions += ["2-D/3-D/4-D snapshot kernels and the regression kernels are not transcribed: for those variables only the oracle (history equality, bound) runs",
                         "built with -DHAVE_TIMECMPR (the feature is compiled out of the default build)",
-                        "PW_REL variables are not part of the explored steps (the temporal kernels do not support them)"]
+                        "PW_REL variables are compressed by the point-wise relative kernels at every step (no temporal prediction for them): judged by the relative bound per step; their history buffers are not compared (never read)"]
 
 
 def replay(chk, path):
